@@ -449,7 +449,7 @@ func (p *pkgInfo) refers(e ast.Expr, o types.Object) bool {
 	return ok && o != nil && p.obj(id) == o
 }
 
-func (p *pkgInfo) constInt(e ast.Expr) (int64, bool) {
+func (p *pkgInfo) wrConstInt(e ast.Expr) (int64, bool) {
 	if tv, ok := p.info.Types[e]; ok && tv.Value != nil && tv.Value.Kind() == constant.Int {
 		return constant.Int64Val(tv.Value)
 	}
@@ -501,7 +501,7 @@ func (p *pkgInfo) localDef(fd *ast.FuncDecl, id *ast.Ident) (rhs ast.Expr, at as
 func (p *pkgInfo) splitAdd(e ast.Expr) (*ast.Ident, int64) {
 	if b, ok := unparen(e).(*ast.BinaryExpr); ok && b.Op == token.ADD {
 		if id, ok := unparen(b.X).(*ast.Ident); ok {
-			if k, ok := p.constInt(b.Y); ok {
+			if k, ok := p.wrConstInt(b.Y); ok {
 				return id, k
 			}
 		}
@@ -589,8 +589,8 @@ func (p *pkgInfo) wrPatch(w *bytes.Buffer, fd *ast.FuncDecl) {
 	// X: either both indices are constants, or X+4 / X+5 with a local X.
 	x0, a0 := p.splitAdd(i0.Index)
 	x1, a1 := p.splitAdd(i1.Index)
-	k0, c0 := p.constInt(i0.Index)
-	k1, c1 := p.constInt(i1.Index)
+	k0, c0 := p.wrConstInt(i0.Index)
+	k1, c1 := p.wrConstInt(i1.Index)
 	var xObj types.Object // X, when it is a function-local name
 	mode := ""
 	fixed := func(k int64) {
@@ -622,7 +622,7 @@ func (p *pkgInfo) wrPatch(w *bytes.Buffer, fd *ast.FuncDecl) {
 		if t := topIndex(fd, at); t > start {
 			start = t
 		}
-		if k, isConst := p.constInt(rhs); isConst {
+		if k, isConst := p.wrConstInt(rhs); isConst {
 			fixed(k)
 			break
 		}
@@ -682,7 +682,7 @@ func (p *pkgInfo) wrPatch(w *bytes.Buffer, fd *ast.FuncDecl) {
 			return true
 		}
 		ln, _ := unparen(sub.X).(*ast.CallExpr)
-		one, isOne := p.constInt(sub.Y)
+		one, isOne := p.wrConstInt(sub.Y)
 		if ln != nil && isIdent(ln.Fun, "len") && len(ln.Args) == 1 && p.refers(ln.Args[0], p.obj(b)) && isOne && one == 1 &&
 			setsErrAndReturns(ifs.Body, "ErrBlockOverflow") {
 			overflow = true
